@@ -324,9 +324,14 @@ class Exec:
                     pred, b = b, (succ[0] if dec else succ[1])
                     continue
                 q = p.clone()
-                self._assume(q, c, False)
-                work.append((succ[1], b, q, "fork"))
-                self._assume(p, c, True)
+                sp = self._assume(q, c, False)
+                for q2 in self._split(q, sp):
+                    work.append((succ[1], b, q2, "fork"))
+                sp = self._assume(p, c, True)
+                alts = self._split(p, sp)
+                for p2 in alts[1:]:
+                    work.append((succ[0], b, p2, "fork"))
+                p = alts[0]
                 pred, b = b, succ[0]
                 continue
             if t.op == "unreachable":
@@ -412,6 +417,19 @@ class Exec:
             return res.pop()
         return None
 
+    def _split(self, p, sp):
+        """case split of a path on a symbol whose feasible set is a small finite set (residue classes)"""
+        if not sp:
+            return [p]
+        sym, vals = sp
+        out = []
+        for v in vals:
+            q = p.clone()
+            q.eqs[sym] = v
+            q.events.append(("class", repr(sym), v))
+            out.append(q)
+        return out
+
     def _assume(self, p, c, truth):
         if isinstance(c, tuple) and c and c[0] == "icmp":
             _, pred, a, b = c
@@ -419,9 +437,8 @@ class Exec:
                 d = self.subst(p, a.add(b, -1))
                 p.conds.append((pred, d, truth))
                 p.events.append(("cond", pred, repr(d), truth))
-                # derive symbol == constant
-                self._derive_eq(p, d)
-                return
+                # derive symbol == constant, or a small finite set of values to split on
+                return self._derive_eq(p, d)
             p.events.append(("cond-data", pred, truth))
             p.conds.append(("data", None, truth))
 
@@ -455,6 +472,9 @@ class Exec:
             cand = [x for x in range(lo, hi + 1) if x not in excl]
             if len(cand) == 1:
                 p.eqs[s] = cand[0]
+            elif 1 < len(cand) <= 8 and isinstance(s, tuple) and s[0] == "hd":
+                return (s, cand)
+        return None
 
     def _step(self, p, I):
         f = self.f
